@@ -176,17 +176,100 @@ Fixpoint prefixb (p v : list N) : bool :=
   end.
 Definition tok_eqb (a b : tok) : bool := (fst a =? fst b) && bytes_eqb (snd a) (snd b).
 
+(* ---------------------------------------------------------------- the leaf language *)
+(* parser.Literal = Field + list of terms {text | `*`} (parser/token_literal.go);
+   parser.Range = Field, From/To (text or the symbol `*` = unbounded), IncludeFrom/IncludeTo (token_range.go);
+   an in-list is parsed into an OR of Literals (parseFilterIn), so PIn only occurs in GENERATED expressions
+   (the `src` of a request), never in the AST handed to the fraction. *)
+Inductive term := TText (bs : list N) | TStar.
+Inductive rbound := RUnb | RVal (bs : list N).
+
 Inductive pat :=
 | PLit (f : N) (v : list N)          (* f:v *)
 | PPrefix (f : N) (p : list N)       (* f:p*   (p may be empty: f:* ) *)
-| PSuffix (f : N) (s : list N).      (* f:*s *)
+| PSuffix (f : N) (s : list N)       (* f:*s *)
+| PGlob (f : N) (ts : list term)     (* general Literal: text terms and stars in any arrangement *)
+| PRange (f : N) (lo hi : rbound) (incl_lo incl_hi : bool)
+| PIn (f : N) (alts : list (list term)).   (* f:in(a, b*, ...) *)
 
+(* glob semantics of a term list: a text term consumes itself, a star any (possibly empty) run of bytes *)
+Fixpoint strip_prefix (p v : list N) : option (list N) :=
+  match p, v with
+  | [], _ => Some v
+  | x :: p', y :: v' => if x =? y then strip_prefix p' v' else None
+  | _ :: _, [] => None
+  end.
+
+Fixpoint glob (ts : list term) : list N -> bool :=
+  match ts with
+  | [] => fun v => match v with [] => true | _ => false end
+  | TText bs :: ts' => fun v => match strip_prefix bs v with Some r => glob ts' r | None => false end
+  | TStar :: ts' => fix star (v : list N) : bool :=
+                      glob ts' v || match v with [] => false | _ :: v' => star v' end
+  end.
+
+(* Go string comparison: bytewise lexicographic *)
+Fixpoint bytes_leb (a b : list N) : bool :=
+  match a, b with
+  | [], _ => true
+  | _ :: _, [] => false
+  | x :: a', y :: b' => (x <? y) || ((x =? y) && bytes_leb a' b')
+  end.
+Definition bytes_ltb (a b : list N) : bool := negb (bytes_leb b a).
+
+(* strconv.ParseFloat on the fragment the correspondence run uses: optional sign, 1..15 decimal digits (exactly
+   representable in float64, so float comparison = integer comparison). Everything else = "not a number"; the
+   harness only produces strings on which the real ParseFloat (finite result) agrees with this. *)
+Fixpoint digits_val (acc : Z) (bs : list N) : option Z :=
+  match bs with
+  | [] => Some acc
+  | b :: r => if (48 <=? b) && (b <=? 57) then digits_val (acc * 10 + Z.of_N (b - 48))%Z r else None
+  end.
+Definition parse_num (bs : list N) : option Z :=
+  let unsigned (ds : list N) :=
+    match ds with
+    | [] => None
+    | _ => if (length ds <=? 15)%nat then digits_val 0%Z ds else None
+    end in
+  match bs with
+  | 45 :: ds => option_map Z.opp (unsigned ds)          (* '-' *)
+  | 43 :: ds => unsigned ds                             (* '+' *)
+  | _ => unsigned bs
+  end.
+
+(* newSearcher on a Range: the number searcher when both ends are numbers or unbounded, else the text searcher *)
+Definition range_match (lo hi : rbound) (il ih : bool) (v : list N) : bool :=
+  let num (b : rbound) : option (option Z) :=           (* Some None = unbounded, None = not a number *)
+    match b with RUnb => Some None | RVal bs => option_map Some (parse_num bs) end in
+  match num lo, num hi with
+  | Some nlo, Some nhi =>
+      match parse_num v with
+      | None => false
+      | Some x =>
+          match nlo with None => true | Some l => if il then (l <=? x)%Z else (l <? x)%Z end
+          && match nhi with None => true | Some h => if ih then (x <=? h)%Z else (x <? h)%Z end
+      end
+  | _, _ =>
+      match lo with RUnb => true | RVal l => if il then bytes_leb l v else bytes_ltb l v end
+      && match hi with RUnb => true | RVal h => if ih then bytes_leb v h else bytes_ltb v h end
+  end.
+
+(* the glob / range matcher: the instance of the abstract matcher used by the executable cases *)
 Definition pat_match (p : pat) (t : tok) : bool :=
   match p with
   | PLit f v => (f =? fst t) && bytes_eqb v (snd t)
   | PPrefix f q => (f =? fst t) && prefixb q (snd t)
   | PSuffix f s => (f =? fst t) && prefixb (List.rev s) (List.rev (snd t))
+  | PGlob f ts => (f =? fst t) && glob ts (snd t)
+  | PRange f lo hi il ih => (f =? fst t) && range_match lo hi il ih (snd t)
+  | PIn f alts => (f =? fst t) && existsb (fun ts => glob ts (snd t)) alts
   end.
+
+(* The search path never looks inside a leaf: it only asks which tokens of the dictionary a leaf selects
+   (pattern.Search). So the whole model below is written over an ABSTRACT matcher, and every theorem about it
+   holds for every matcher; pat_match above is the instance the correspondence run evaluates. *)
+Class Matcher := { tok_match : pat -> tok -> bool }.
+Definition glob_matcher : Matcher := {| tok_match := pat_match |}.
 
 Inductive query :=
 | QLeaf (p : pat)
@@ -265,6 +348,27 @@ Definition lids_borders (from to : N) (tab : list doc) : res (N * N) :=
   bind (bin_search_in_range minLID last (fun lid => lid_le tab lid minID)) (fun e =>
   Ok (minLID, e - 1))).
 
+(* IDs descending *)
+Definition id_geb (a b : id) : bool := (fst b <? fst a) || ((fst a =? fst b) && (snd b <=? snd a)).
+Module IdOrder <: TotalLeBool.
+  Definition t := id.
+  Definition leb := id_geb.
+  Theorem leb_total : forall a1 a2, leb a1 a2 = true \/ leb a2 a1 = true.
+  Proof.
+    intros [m1 r1] [m2 r2]; unfold leb, id_geb; simpl.
+    destruct (N.ltb_spec m2 m1); simpl; auto.
+    destruct (N.ltb_spec m1 m2); simpl; auto.
+    assert (m1 = m2) by (apply N.le_antisymm; assumption). subst. rewrite N.eqb_refl. simpl.
+    destruct (N.leb_spec r2 r1); auto. right. apply N.leb_le. apply N.lt_le_incl. assumption.
+  Qed.
+End IdOrder.
+Module IdSort := Sort IdOrder.
+
+
+(* ================================================================ everything below: over an abstract matcher *)
+Section WithMatcher.
+Context {tm : Matcher}.
+
 (* ---------------------------------------------------------------- leaves: evalLeaf *)
 Definition has_tok (t : tok) (d : doc) : bool := existsb (tok_eqb t) (dtoks d).
 
@@ -288,7 +392,7 @@ Definition vocab (tab : list doc) : list tok :=
   fold_left (fun acc d => fold_left (fun a t => add_tok t a) (dtoks d) acc) tab [].
 
 Definition leaf_tree (voc : list tok) (tab : list doc) (minLID maxLID : N) (p : pat) : res ntree :=
-  build_or_tree (map (fun t => NStatic (posting t minLID maxLID 1 tab)) (filter (pat_match p) voc)).
+  build_or_tree (map (fun t => NStatic (posting t minLID maxLID 1 tab)) (filter (tok_match p) voc)).
 
 (* ---------------------------------------------------------------- buildEvalTree *)
 (* leaf = createLeafFunc: how a leaf token becomes a node *)
@@ -370,7 +474,7 @@ Definition hist_prepared (p : prepared) (q : query) (from to : N) (rev : bool) (
 (* ---------------------------------------------------------------- the specification *)
 Fixpoint sat (q : query) (d : doc) : bool :=
   match q with
-  | QLeaf p => existsb (pat_match p) (dtoks d)
+  | QLeaf p => existsb (tok_match p) (dtoks d)
   | QNot a => negb (sat a d)
   | QAnd l r => sat l d && sat r d
   | QOr l r => sat l d || sat r d
@@ -378,22 +482,6 @@ Fixpoint sat (q : query) (d : doc) : bool :=
   end.
 
 Definition in_range (from to : N) (d : doc) : bool := (from <=? dmid d) && (dmid d <=? to).
-
-(* IDs descending *)
-Definition id_geb (a b : id) : bool := (fst b <? fst a) || ((fst a =? fst b) && (snd b <=? snd a)).
-Module IdOrder <: TotalLeBool.
-  Definition t := id.
-  Definition leb := id_geb.
-  Theorem leb_total : forall a1 a2, leb a1 a2 = true \/ leb a2 a1 = true.
-  Proof.
-    intros [m1 r1] [m2 r2]; unfold leb, id_geb; simpl.
-    destruct (N.ltb_spec m2 m1); simpl; auto.
-    destruct (N.ltb_spec m1 m2); simpl; auto.
-    assert (m1 = m2) by (apply N.le_antisymm; assumption). subst. rewrite N.eqb_refl. simpl.
-    destruct (N.leb_spec r2 r1); auto. right. apply N.leb_le. apply N.lt_le_incl. assumption.
-  Qed.
-End IdOrder.
-Module IdSort := Sort IdOrder.
 
 Definition matching (c : list doc) (q : query) (from to : N) : list doc :=
   filter (fun d => in_range from to d && sat q d) c.
@@ -408,3 +496,5 @@ Definition search_spec (c : list doc) (q : query) (from to : N) (rev : bool) (li
 (* histogram of the matching DOCUMENTS *)
 Definition hist_spec (c : list doc) (q : query) (from to : N) (hist : N) : list (N * N) :=
   if 0 <? hist then hist_of hist (map dmid (matching c q from to)) else [].
+
+End WithMatcher.
